@@ -15,6 +15,13 @@ MUTANTS = [
     ("C03", "api/tracepoint/trigger.py", 'if event == "call" and function_name == self.__function_name:', 'if function_name == self.__function_name:'),
     ("C05", "processor/variable_processor.py", "return string[:max_length], len(string) > max_length", "return string[:max_length], len(string) >= max_length"),
     ("C05", "processor/variable_set_processor.py", "if self.__var_cache.size > self.__config.max_variables:", "if self.__var_cache.size >= self.__config.max_variables:"),
+    ("C05", "processor/bfs/__init__.py", "pop = queue.pop(0)", "pop = queue.pop()"),
+    ("C05", "processor/bfs/__init__.py", "            queue += pop.children\n", "            queue = pop.children + queue\n"),
+    ("C05", "processor/bfs/__init__.py", "        else:\n            return\n", "        else:\n            continue\n"),
+    ("C05", "processor/variable_set_processor.py", "        if process_result.process_children:\n            # process children and add to node\n", "        if True:\n"),
+    ("C05", "processor/variable_set_processor.py", "        if not self.check_var_count():\n            # we have exceeded the var count, so do not continue\n            return False\n\n        node_value = node.value\n        if node_value is None:\n            # this node has no value, continue with children\n            return True\n",
+     "        node_value = node.value\n        if node_value is None:\n            # this node has no value, continue with children\n            return True\n        if not self.check_var_count():\n            return False\n"),
+    ("C05", "processor/variable_set_processor.py", "        node.parent.add_child(var_id)\n", ""),
     ("C02", "processor/variable_processor.py", "    if var_name.startswith(\"_\"):\n        return ['protected']", "    if var_name.startswith(\"_\"):\n        return ['private']"),
     ("C10", "processor/context/action_context.py", "        if isinstance(result, BaseException):\n", "        if isinstance(result, BaseException) and False:\n"),
     ("C10", "utils.py", '("yes", "true", "t", "1", "y")', '("yes", "true", "t", "1", "y", "on")'),
